@@ -42,7 +42,7 @@ def generate(ctx):
                "trainable_feedback": True, "transforms": False, "capture": False,
                "trainer": trainer, "signs": rng.randrange(4), "trace_mode": rng.choice(["cumulative", "nearest"]),
                "delayed": bool(delay) and rng.random() < 0.5, "inplace": rng.random() < 0.5,
-               "reducer": rng.choice(REDUCERS), "reducer_duration": rng.choice([0.0, 3.0, 2.5, 1.0]), "classifier": target == "clone" or rng.random() < 0.5, "vmon": ["ca", "ema", None][(i // 9) % 3], "update_every": [1, 3][(i // 2) % 2],
+               "reducer": rng.choice(REDUCERS), "reducer_duration": rng.choice([0.0, 3.0, 2.5, 1.0]), "classifier": target == "clone" or rng.random() < 0.5, "vmon": ["ca", "ema", None][(i // 9) % 3], "update_every": [1, 3][(i // 2) % 2], "log_pending": (i // 4) % 2 == 0,
                "target": target, "reducer_clear_at": rng.choice([None, 2, 4]),
                # histories that started single-slot and were grown by a setter afterwards (connection delay range, reducer duration)
                "grown": rng.random() < 0.4,
@@ -126,6 +126,13 @@ class System:
                     if "tensor_kwargs" in bname and bname.endswith("learning_rate"):
                         buf.mul_(0.6)
                         self.annealed = getattr(self, "annealed", 0) + 1
+            if self.d.get("log_pending"):
+                # a logger looks at the pending (reduced) update parts after every trainer call: reading is free of side effects
+                for c in self.parts.conns.values():
+                    for nm in c.updater.names:
+                        acc = getattr(c.updater, nm)
+                        _ = acc.pos, acc.neg
+                self.logged = getattr(self, "logged", 0) + 1
             # updates accumulate over `update_every` steps before they are applied: a checkpoint in between carries pending parts
             if (t + 1) % self.d.get("update_every", 1) == 0:
                 self.layer.update()
@@ -291,6 +298,8 @@ def run_case(ctx, desc):
                 if name not in fin2 or not _same(fin2[name], ref_final[name]):
                     return ctx.violation(f"restore.second_load_of_one_checkpoint.final_state_differs.{_leafclass(name)}",
                                          f"checkpoint at {k} loaded a second time: final '{name}' differs from the uninterrupted run", rdesc)
+        if getattr(dst, "logged", 0) and n_upd > 1 and k % n_upd != 0:
+            ctx.count("checkpoints_with_pending_updates_into_a_target_whose_pending_parts_were_read")
         if getattr(src, "annealed", 0):
             ctx.count("checkpoints_after_in_place_changes_of_trainer_buffers")
     # ---- a target in a different phase of the update schedule (an "arbitrary prior state"): the checkpoint holds two pending
